@@ -1,1 +1,4 @@
-
+import NjectProofs.Slots
+import NjectProofs.Refine
+import NjectProofs.Static
+import NjectProofs.Machine
